@@ -200,7 +200,71 @@ func ClassifyCheck(w gen.World, r m.Request, exp refsem.Outcome, allowed bool, e
 	if err == nil && allowed && exp == refsem.False && RecursiveRelationWithForeignUsersetTuple(w, r) {
 		return SigRecursiveIgnoresUsersetRelation
 	}
+	if err == nil && !allowed && exp == refsem.True && ExclusionOverTupleCycle(w, r) {
+		return SigExclusionCycleDeny
+	}
 	return ""
+}
+
+// SigExclusionCycleDeny: exclusion() treats "cycle detected" in the SUBTRACT
+// branch as a reason to deny, although a cycle only means that this path does
+// not prove membership in the subtracted set: with r0:[user:*, group#r0],
+// r1: ([user:*, group#r1] but not r0) or r0 and a tuple cycle
+// group:0#r0 <-> group:3#r0, Check(group:3#r1@user:1) is false although
+// nobody is in r0. Pinned by TestNonStratifiableCheckQueries /
+// TestExclusionCheckFuncReducer (the flag is what makes non-stratified models
+// terminate with "false"), so not repaired.
+const SigExclusionCycleDeny = "C01/exclusion-denies-on-cycle-in-subtract-branch"
+
+// ExclusionOverTupleCycle recognises that signature structurally: the model
+// has an exclusion and the valid tuples contain a cycle of userset / parent
+// references between objects.
+func ExclusionOverTupleCycle(w gen.World, r m.Request) bool {
+	hasDiff := false
+	for _, td := range w.Model.Types {
+		for _, rel := range td.Relations {
+			rel.Rewrite.Walk(func(n *m.Rewrite) {
+				if n.Kind == m.Difference {
+					hasDiff = true
+				}
+			})
+		}
+	}
+	if !hasDiff {
+		return false
+	}
+	adj := map[string][]string{}
+	for _, t := range EvalTuples(w, r.Contextual) {
+		uo, _ := m.SplitUser(t.User)
+		ut, id := m.SplitObject(uo)
+		if id == "*" || w.Model.Type(ut) == nil || len(w.Model.Type(ut).Relations) == 0 {
+			continue
+		}
+		adj[t.Object] = append(adj[t.Object], uo)
+	}
+	state := map[string]int{}
+	var visit func(n string) bool
+	visit = func(n string) bool {
+		state[n] = 1
+		for _, nx := range adj[n] {
+			if state[nx] == 1 || (state[nx] == 0 && visit(nx)) {
+				return true
+			}
+		}
+		state[n] = 2
+		return false
+	}
+	nodes := make([]string, 0, len(adj))
+	for n := range adj {
+		nodes = append(nodes, n)
+	}
+	sort.Strings(nodes)
+	for _, n := range nodes {
+		if state[n] == 0 && visit(n) {
+			return true
+		}
+	}
+	return false
 }
 
 // SigRecursiveIgnoresUsersetRelation: for a relation T#r that allows its own
